@@ -254,7 +254,13 @@ def r11_4_inline(chk):
     data_or_empty = ("ite", ("cmp", "is", data, NONE), ("dict", ()), data)
     inline = A(SELF, "_data_dict")
     wr = [c for t in _all_terms(mk) for c in calls_in(t, "DictDataWrapper")]
-    ok = bool(wr) and all(_merge_parts(call_arg(c, 0)) == [inline, data_or_empty] for c in wr)
+    def merged(t):
+        # the merge itself, or - when there are no inline data - the given dict alone (equal content)
+        if _merge_parts(t) == [inline, data_or_empty]:
+            return True
+        return t[0] == "ite" and t[1] == inline and _merge_parts(t[2]) == [inline, data_or_empty] and \
+            t[3] == data_or_empty
+    ok = bool(wr) and all(merged(call_arg(c, 0)) for c in wr)
     chk.require(ok, "R11.4", "dicts-merged", "inline data and the dict passed to write() are not merged (write-time data "
                 "overriding) into the one dict wrapper", mk.func.where)
     is_dict = ("call", ("global", "isinstance"), (data_or_empty, ("global", "dict")), ())
